@@ -36,7 +36,7 @@ func c06Gen(tier string, seed int64) []fw.Case {
 	var cs []fw.Case
 	parts, nrand := 16, 400
 	if tier == "thorough" {
-		parts, nrand = 64, 12000
+		parts, nrand = 64, 60000
 	}
 	for i := 0; i < parts; i++ {
 		cs = append(cs, fw.Mk(fmt.Sprintf("structural-%d/%d", i, parts), c06Params{Mode: "structural", Part: i, Of: parts}))
